@@ -561,6 +561,38 @@ func init() {
 		g, err := wkb.Unmarshal(a[0].b, a[1].wkbOpts...)
 		return []any{g, err}
 	})
+	// ---- variadic arguments passed as a slice that has room to spare: the slice
+	// (to its capacity) stays the caller's
+	reg("xy.LinesCentroid/slice-with-spare-capacity", []string{"g:LineString", "g:LineString"}, func(c *Call, a []*item) any {
+		sentinel := geom.NewLineString(geom.XY)
+		pool := make([]*geom.LineString, 1, 2)
+		pool[0], pool[:2][1] = a[1].g.(*geom.LineString), sentinel
+		r := xy.LinesCentroid(a[0].g.(*geom.LineString), pool...)
+		if pool[0] != a[1].g.(*geom.LineString) || pool[:2][1] != sentinel {
+			return "CALLER-SLICE-CLOBBERED"
+		}
+		return r
+	})
+	reg("xy.PolygonsCentroid/slice-with-spare-capacity", []string{"g:Polygon", "g:Polygon"}, func(c *Call, a []*item) any {
+		sentinel := geom.NewPolygon(geom.XY)
+		pool := make([]*geom.Polygon, 1, 2)
+		pool[0], pool[:2][1] = a[1].g.(*geom.Polygon), sentinel
+		r := xy.PolygonsCentroid(a[0].g.(*geom.Polygon), pool...)
+		if pool[0] != a[1].g.(*geom.Polygon) || pool[:2][1] != sentinel {
+			return "CALLER-SLICE-CLOBBERED"
+		}
+		return r
+	})
+	reg("xy.PointsCentroid/slice-with-spare-capacity", []string{"g:Point", "g:Point"}, func(c *Call, a []*item) any {
+		sentinel := geom.NewPoint(geom.XY)
+		pool := make([]*geom.Point, 1, 2)
+		pool[0], pool[:2][1] = a[1].g.(*geom.Point), sentinel
+		r := xy.PointsCentroid(a[0].g.(*geom.Point), pool...)
+		if pool[0] != a[1].g.(*geom.Point) || pool[:2][1] != sentinel {
+			return "CALLER-SLICE-CLOBBERED"
+		}
+		return r
+	})
 	// ---- centroid calculators used directly (one calculator per call, shared arguments)
 	reg("xy.CentroidCalculators", []string{"g:Polygon", "g:LineString", "g:Point"}, func(c *Call, a []*item) any {
 		pg, ls, pt := a[0].g.(*geom.Polygon), a[1].g.(*geom.LineString), a[2].g.(*geom.Point)
